@@ -116,7 +116,24 @@ def prepare_config(ini_text, workdir):
     return config
 
 
-def build(ini_text, sim_seed, workdir):
+def _cluster_nodes(nodes, fraction):
+    """Initial configuration as an input: contract all objects towards the origin corner by `fraction` (whole objects are
+    translated rigidly), so that several units share a cell."""
+    import jellyfysh.setting as setting
+    pb = setting.periodic_boundaries
+    for root in nodes:
+        old = list(root.value.position)
+        shift = [x * fraction - x for x in old]
+
+        def move(node):
+            node.value.position = [pb.correct_position_entry(x + shift[i], i) for i, x in enumerate(node.value.position)]
+            for ch in node.children:
+                move(ch)
+        move(root)
+    return nodes
+
+
+def build(ini_text, sim_seed, workdir, cluster=None):
     """Build setting + mediator exactly as run.main does; returns a Context."""
     from jellyfysh.base import factory
     from jellyfysh.base.strings import to_camel_case
@@ -131,10 +148,19 @@ def build(ini_text, sim_seed, workdir):
     logging.getLogger("jellyfysh").addHandler(catcher)
     logging.getLogger("jellyfysh").propagate = False
     ctx._catcher = catcher
-    with contextlib.redirect_stdout(io.StringIO()):
-        factory.build_from_config(config, to_camel_case(config.get("Run", "setting")), "jellyfysh.setting")
-        ctx.mediator = factory.build_from_config(config, to_camel_case(config.get("Run", "mediator")),
-                                                 "jellyfysh.mediator")
+    from jellyfysh.input_output_handler.input_output_handler import InputOutputHandler
+    real_read = InputOutputHandler.read
+    if cluster:
+        def read(self):
+            return _cluster_nodes(real_read(self), cluster)
+        InputOutputHandler.read = read
+    try:
+        with contextlib.redirect_stdout(io.StringIO()):
+            factory.build_from_config(config, to_camel_case(config.get("Run", "setting")), "jellyfysh.setting")
+            ctx.mediator = factory.build_from_config(config, to_camel_case(config.get("Run", "mediator")),
+                                                     "jellyfysh.mediator")
+    finally:
+        InputOutputHandler.read = real_read
     m = ctx.mediator
     ctx.setting = setting
     ctx.state_handler = m._state_handler
@@ -196,6 +222,8 @@ def instrument(ctx, monitor, max_events):
 
     def write(name, *args):
         monitor.on_write(ctx, name, args)
+        if args and args[0] is ctx.mediator:
+            return None   # a dump of the instrumented mediator is not written (C19 exercises real dumps)
         return real_write(name, *args)
     io_h.write = write
 
@@ -245,14 +273,14 @@ def _wrap_handler(ctx, monitor, h):
     h.send_event_time, h.send_out_state = send_event_time, send_out_state
 
 
-def run(ini_text, sim_seed, max_events, monitor, keep_workdir=False):
+def run(ini_text, sim_seed, max_events, monitor, keep_workdir=False, cluster=None):
     """Instrumented run.  Returns (ctx, reason) with reason in {'end_of_run', 'budget'}; exceptions raised by the
     code under test propagate (the caller classifies them)."""
     from jellyfysh.base.exceptions import EndOfRun
     workdir = tempfile.mkdtemp(prefix="jfrun_")
     ctx = None
     try:
-        ctx = build(ini_text, sim_seed, workdir)
+        ctx = build(ini_text, sim_seed, workdir, cluster=cluster)
         monitor.on_built(ctx)
         instrument(ctx, monitor, max_events)
         reason = None
